@@ -120,8 +120,10 @@ def undecodable_case(ctx, kind, inp, user_seed):
             decodable = True
         except UnicodeDecodeError:
             decodable = False
-        if now.get(rel) == t1[rel] or now.get(rel) == tabnorm(t1[rel]):
-            return None if not decodable else "trivial"
+        if decodable:
+            return "trivial"          # (e.g. NUL bytes: valid UTF-8) nothing to check here; regeneration of readable files is C01's clause
+        if now.get(rel) == t1[rel]:
+            return None
         return {"kind": kind, "input": inp, "user_seed": user_seed, "file": rel, "undecodable_case": True,
                 "detail": "file with undecodable bytes was rewritten with different content", "finding_key": "undecodable:%s" % kind}
 
